@@ -3,7 +3,9 @@ C11 — property theorems: the guards extracted from the CURRENT source (Generat
 run by translator/guards.py) imply the preconditions of the kernels. Decision logic over argument descriptors.
 -/
 import Mahotas.Model.C11
-open Mahotas Mahotas.C11
+import Mahotas.Proofs.C11Shapes
+import Mahotas.Properties.C10
+open Mahotas Mahotas.C11 Mahotas.C10
 
 /-- **C11-T1 (slic).** If the guards of the wrapper `segmentation.slic`, as they are in the source now, all pass on an
 `array` argument that is an ndarray and integer `spacer`, `max_iters`, then the kernel precondition holds: the array
@@ -108,3 +110,389 @@ example :
   decide
 
 example : seeds 4 10 = [2, 6] := by decide
+
+/-! ## Round 2 — native entry points, more kernels, composed corollaries, exit actions -/
+
+/-- **C11-T1 (template_match).** If the guards of the native `py_template_match`, as extracted from the source now, all
+pass, then the three arguments are ndarrays, image and template have the same rank, the output has the shape of the
+image and is a writeable aligned C array. Independently the wrapper `convolve.template_match` lets ndarrays through
+only with equal ranks. -/
+theorem C11_template_match_guards_imply_pre (env : Env) :
+    (npasses Generated.nativeGuards_convolve_template_match env = true →
+      ((env "array").kind = 1 ∧ (env "template_").kind = 1 ∧ (env "output").kind = 1) ∧ PreTemplateMatch env) ∧
+    ((env "f").kind = 1 → (env "template").kind = 1 → passes Generated.guards_convolve_template_match env = true →
+      (env "f").ndim = (env "template").ndim) := by
+  constructor
+  · intro h
+    simp [Generated.nativeGuards_convolve_template_match, npasses, NAtom.rejects, isArr] at h
+    obtain ⟨⟨ha, ht, ho⟩, -, h3, h4, h5⟩ := h
+    simp [ha, ht, ho] at h3 h4 h5
+    exact ⟨⟨ha, ht, ho⟩, h3, h4, h5⟩
+  · intro hf ht h
+    simp [Generated.guards_convolve_template_match, passes, Atom.rejects, isArr, hf, ht] at h
+    exact h
+
+/-- **C11-T1 (find2d).** If the guards of the native `py_find2d` pass, all three arguments are ndarrays, image and
+template are matrices, and the boolean output is a C array of the shape of the image. -/
+theorem C11_find2d_guards_imply_pre (env : Env)
+    (h : npasses Generated.nativeGuards_convolve_find2d env = true) :
+    ((env "array").kind = 1 ∧ (env "target").kind = 1 ∧ (env "output").kind = 1) ∧ PreFind2d env := by
+  simp [Generated.nativeGuards_convolve_find2d, npasses, NAtom.rejects, isArr] at h
+  obtain ⟨⟨ha, ht, ho⟩, h2, h3, h4, -, -, h7⟩ := h
+  simp [ha, ht, ho] at h2 h3 h4 h7
+  exact ⟨⟨ha, ht, ho⟩, h2, h3, h4, h7⟩
+
+/-- **C11-T1 (hitmiss).** The wrapper `morph.hitmiss` lets ndarrays through only with equal rank ≥ 1; the native
+`py_hitmiss` runs only with three ndarrays, the result of the shape of the input and a C array. (Neither checks that no
+axis of `input` or `Bc` has length zero: see `C11_hitmiss_safe_partial`.) -/
+theorem C11_hitmiss_guards_imply_pre (env : Env) :
+    ((env "input").kind = 1 → (env "Bc").kind = 1 → passes Generated.guards_morph_hitmiss env = true → PreHitmissW env) ∧
+    (npasses Generated.nativeGuards_morph_hitmiss env = true →
+      ((env "array").kind = 1 ∧ (env "Bc").kind = 1 ∧ (env "res_a").kind = 1) ∧ PreHitmissN env) := by
+  constructor
+  · intro hi hb h
+    simp [Generated.guards_morph_hitmiss, passes, Atom.rejects, isArr, hi, hb] at h
+    unfold PreHitmissW
+    omega
+  · intro h
+    simp [Generated.nativeGuards_morph_hitmiss, npasses, NAtom.rejects, isArr] at h
+    obtain ⟨⟨ha, hb, hr⟩, h2, -, h4⟩ := h
+    simp [ha, hr] at h2 h4
+    exact ⟨⟨ha, hb, hr⟩, h2.symm, h4⟩
+
+/-- **C11-T1 (majority_filter).** Wrapper: a matrix and `N ≥ 2`. Native `py_majority_filter`: boolean ndarrays, a
+matrix, the result of the same shape and a C array. (The native entry point itself does not check `N ≥ 0`: only the
+wrapper does.) -/
+theorem C11_majority_guards_imply_pre (env : Env) :
+    ((env "img").kind = 1 → (env "N").kind = 2 → passes Generated.guards_morph_majority_filter env = true → PreMajorityW env) ∧
+    (npasses Generated.nativeGuards_morph_majority_filter env = true →
+      ((env "array").kind = 1 ∧ (env "res_a").kind = 1) ∧ PreMajorityN env) := by
+  constructor
+  · intro hi hn h
+    simp [Generated.guards_morph_majority_filter, passes, Atom.rejects, isArr, isInt, hi, hn] at h
+    unfold PreMajorityW
+    omega
+  · intro h
+    simp [Generated.nativeGuards_morph_majority_filter, npasses, NAtom.rejects, isArr] at h
+    obtain ⟨ha, hr, -, -, h5, h6, h7⟩ := h
+    simp [ha, hr] at h5 h6 h7
+    exact ⟨⟨ha, hr⟩, h5, h6.symm, h7⟩
+
+/-- **C11-T1 (dt / distance).** Native `py_dt`: when no guard takes its exit — the last one, `size == 0`, is an early
+successful return in front of the loops, not an error — the array is 2-D and has no element-less axis, so `size/n`
+divides by a positive `n`. Wrapper `distance`: rank ≥ 1 and at least one element. -/
+theorem C11_dt_guards_imply_pre (env : Env) :
+    (npasses Generated.nativeGuards_distance_dt env = true → (env "f").kind = 1 ∧ PreDt env) ∧
+    ((env "bw").kind = 1 → passes Generated.guards_distance_distance env = true → PreDistance env) := by
+  constructor
+  · intro h
+    simp [Generated.nativeGuards_distance_dt, npasses, NAtom.rejects, isArr] at h
+    obtain ⟨hf, -, h3, h4⟩ := h
+    simp [hf] at h3 h4
+    exact ⟨hf, h3, h4⟩
+  · intro hb h
+    simp [Generated.guards_distance_distance, passes, Atom.rejects, isArr, hb] at h
+    unfold PreDistance
+    omega
+
+/-- **C11-T1 (center_of_mass).** If the guards of the native `py_center_of_mass` pass and labels are given (not None),
+then the labels are an ndarray of the SHAPE of the image (an aligned C array), hence have at least as many elements
+as the image: the hypothesis `hs` of `C10_center_of_mass_in_bounds`. -/
+theorem C11_center_of_mass_guards_imply_pre (env : Env)
+    (h : npasses Generated.nativeGuards_center_of_mass_center_of_mass env = true) :
+    (env "array").kind = 1 ∧ PreCenterOfMass env := by
+  simp [Generated.nativeGuards_center_of_mass_center_of_mass, npasses, NAtom.rejects, isArr] at h
+  obtain ⟨ha, h2, h3, -, h5⟩ := h
+  refine ⟨ha, ?_⟩
+  intro hk
+  have hl : (env "labels_obj").kind = 1 := by omega
+  simp [ha, hl] at h3 h5
+  refine ⟨hl, h5.symm, h3, ?_⟩
+  simp [Desc.size, h5]
+
+/-- **C11-T1 (bbox).** `labeled.bbox` reaches `_bbox.bbox_labeled` only when no label is negative. -/
+theorem C11_bbox_guards_imply_pre (env : Env) (hf : (env "f").kind = 1)
+    (h : passes Generated.guards_labeled_bbox env = true) : PreBbox env := by
+  simp [Generated.guards_labeled_bbox, passes, Atom.rejects, isArr, hf] at h
+  exact h
+
+/-- **C11-T1 (cooccurence).** With a caller-supplied 2-D `output` that passes the guards of `texture.cooccurence`, both
+dimensions of the output exceed the largest pixel value. -/
+theorem C11_cooccurence_guards_imply_pre (env : Env) (hf : (env "f").kind = 1) (ho : (env "output").kind = 1)
+    (h2 : (env "output").shape.length = 2)
+    (h : passes Generated.guards_features_texture_cooccurence env = true) : PreCooccurence env := by
+  obtain ⟨a, b, hs⟩ := shape_of_len_two _ h2
+  simp [Generated.guards_features_texture_cooccurence, passes, Atom.rejects, isArr, hf, ho, hs] at h
+  unfold PreCooccurence
+  simp [hs]
+  omega
+
+/-- **C11-T1 (rank_filter, median_filter) — partial.** The helper `convolve._check_rank(Bc, rank, fname)` raises unless
+`0 ≤ rank < count_nonzero(Bc)`. NOT covered: that `rank_filter` and `median_filter` call it with the very `Bc` and
+`rank` they pass on to `_convolve.rank_filter` (they do, textually; the call is recorded as an opaque statement, the
+data flow is not modelled). -/
+theorem C11_rank_guards_imply_pre_partial (env : Env) (hr : (env "rank").kind = 2) (hb : (env "Bc").kind = 1)
+    (h : passes Generated.guards_convolve__check_rank env = true) : PreRank env := by
+  simp [Generated.guards_convolve__check_rank, passes, Atom.rejects, isArr, isInt, hr, hb] at h
+  exact h
+
+/-- **C11-T1 (convolve1d fast path).** The test in front of the call of `_convolve.convolve1d` in `convolve.convolve1d`,
+read on the values of the locals at that point, gives `len(weights) < f.shape[axis]`. -/
+theorem C11_convolve1d_reach_implies_pre (env : Env)
+    (h : passes Generated.reach_convolve_convolve1d env = true) : PreConv1dFast env := by
+  simp [Generated.reach_convolve_convolve1d, passes, Atom.rejects, isArr, isInt] at h
+  unfold PreConv1dFast
+  have := h.2
+  simp only [List.getD_eq_getElem?_getD]
+  omega
+
+/-- **C11-T1 (shift / zoom_shift).** Wrapper `interpolate.shift`: every entry of the shift is finite. Native
+`py_zoom_shift`: image and output are ndarrays and C arrays; a `shifts` (`zooms`) ndarray is a C array, and when it has
+at least one axis its first axis has one entry per dimension of the image. (A 0-dimensional `shifts`/`zooms` array is
+not rejected: `PyArray_DIM(shifts, 0)` is then read past the empty dimension list — only reachable by calling the
+native function directly.) -/
+theorem C11_zoom_shift_guards_imply_pre (env : Env) :
+    (passes Generated.guards_interpolate_shift env = true → PreShift env) ∧
+    (npasses Generated.nativeGuards_interpolate_zoom_shift env = true →
+      ((env "array").kind = 1 ∧ (env "output").kind = 1) ∧ PreZoomShift env) := by
+  constructor
+  · intro h
+    simp [Generated.guards_interpolate_shift, passes, Atom.rejects] at h
+    exact h
+  · intro h
+    simp [Generated.nativeGuards_interpolate_zoom_shift, npasses, NAtom.rejects, isArr] at h
+    obtain ⟨⟨ha, ho⟩, h2, h3, -, h5, -, h7, h8, -, h10⟩ := h
+    simp [ha, ho] at h2 h3 h7 h10
+    refine ⟨⟨ha, ho⟩, h2, h3, ?_, ?_⟩
+    · intro hs
+      simp [hs] at h8 h10
+      refine ⟨h8, fun hl => ?_⟩
+      rcases h10 with h10 | h10
+      · simp [h10] at hl
+      · simpa using h10
+    · intro hz
+      simp [hz] at h5 h7
+      refine ⟨h5, fun hl => ?_⟩
+      rcases h7 with h7 | h7
+      · simp [h7] at hl
+      · simpa using h7
+
+/-- **C11-T1 (get_structuring_elem).** An ndarray `Bc` that passes the guards has the rank of the image and at least one
+element (no zero-length axis). -/
+theorem C11_structuring_elem_guards_imply_pre (env : Env) (ha : (env "A").kind = 1) (hb : (env "Bc").kind = 1)
+    (h : passes Generated.guards_morph_get_structuring_elem env = true) : PreStructElem env := by
+  simp [Generated.guards_morph_get_structuring_elem, passes, Atom.rejects, isArr, ha, hb] at h
+  unfold PreStructElem
+  omega
+
+/-! ### composed corollaries: guards pass ⇒ every access of the C10 index model is in bounds -/
+
+/-- **C11+C10 (find).** Let the wrapper guards of `convolve.find` pass on ndarrays `f`, `template` and the guards of the
+native `py_find2d` pass on (`array`, `target`, `output`), where — the link between the two calls, `_convolve.find2d(f,
+template.astype(f.dtype), out)` — `array` has the shape of `f` and `target` the shape of `template` (well-formed
+descriptors). Then the arrays are exactly what the 2-D index model of C10 speaks about: `array` is `n0 × n1`, `target`
+is `t0 × t1`, `output` is `n0 × n1` in C order, and for a template with at least one element per axis every access
+`array.at(y+sy, x+sx)`, `target.at(sy, sx)`, `out.at(y, x)` of the model (with the strict and with the inclusive loop
+bound) is in bounds. -/
+theorem C11_find2d_safe (env : Env) (incl : Bool)
+    (hf : (env "f").kind = 1) (ht : (env "template").kind = 1)
+    (hw : passes Generated.guards_convolve_find env = true)
+    (hn : npasses Generated.nativeGuards_convolve_find2d env = true)
+    (wfa : (env "array").wf) (wft : (env "target").wf)
+    (la : (env "array").shape = (env "f").shape) (lt : (env "target").shape = (env "template").shape) :
+    ∃ n0 n1 t0 t1 : Nat, (env "f").shape = [n0, n1] ∧ (env "template").shape = [t0, t1] ∧ (env "output").shape = [n0, n1] ∧
+      (env "output").isCArray = true ∧
+      (1 ≤ t0 → 1 ≤ t1 → ∀ a ∈ find2dAccesses n0 n1 t0 t1 incl, 0 ≤ a.i ∧ a.i < a.size) := by
+  have _ := hw; have _ := hf; have _ := ht
+  obtain ⟨-, h2, h3, h4, h5⟩ := C11_find2d_guards_imply_pre env hn
+  obtain ⟨n0, n1, ea⟩ := shape_of_len_two (env "array").shape (by rw [← wfa]; exact h2)
+  obtain ⟨t0, t1, et⟩ := shape_of_len_two (env "target").shape (by rw [← wft]; exact h3)
+  refine ⟨n0, n1, t0, t1, by rw [← la, ea], by rw [← lt, et], by rw [h4, ea], h5, ?_⟩
+  intro h0 h1
+  exact C10_find2d_in_bounds n0 n1 t0 t1 incl (by omega) (by omega)
+
+/-- **C11+C10 (majority_filter).** Let the wrapper guards of `morph.majority_filter` pass on an ndarray `img` and an
+integer `N`, and the guards of the native `py_majority_filter` pass on (`array`, `N`, `res_a`) with the same `N` (one
+environment) and `array` of the shape of `img`. Then `array` and `res_a` are `rows × cols`, `res_a` is a C array (so
+the flat output index of the model is its address), every access of the C10 model is in bounds and all four `!=`
+loops leave through their test. `N ≥ 0` comes from the WRAPPER only (`N <= 1` raises); the native entry point does
+not check it. -/
+theorem C11_majority_safe (env : Env)
+    (hi : (env "img").kind = 1) (hN : (env "N").kind = 2)
+    (hw : passes Generated.guards_morph_majority_filter env = true)
+    (hn : npasses Generated.nativeGuards_morph_majority_filter env = true)
+    (wfa : (env "array").wf) :
+    ∃ rows cols : Nat, (env "array").shape = [rows, cols] ∧ (env "res_a").shape = [rows, cols] ∧ (env "res_a").isCArray = true ∧
+      (∀ a ∈ majorityAccesses rows cols (env "N").ival, 0 ≤ a.i ∧ a.i < a.size) ∧
+      majorityDone rows cols (env "N").ival = true := by
+  obtain ⟨-, hN2⟩ := (C11_majority_guards_imply_pre env).1 hi hN hw
+  obtain ⟨-, h2, h3, h4⟩ := (C11_majority_guards_imply_pre env).2 hn
+  obtain ⟨r, c, ea⟩ := shape_of_len_two (env "array").shape (by rw [← wfa]; exact h2)
+  have := C10_majority_in_bounds r c (env "N").ival (by omega)
+  exact ⟨r, c, ea, by rw [h3, ea], h4, this.1, this.2⟩
+
+/-- **C11+C10 (hitmiss) — partial.** Let the wrapper guards of `morph.hitmiss` pass on ndarrays `input`, `Bc` and the
+guards of the native `py_hitmiss` pass on (`array`, `Bc`, `res_a`) with `array` of the shape of `input` (well-formed
+descriptors). Then rank(`Bc`) = rank(`array`) ≥ 1, `res_a` has the shape of `array` and is a C array, and — PROVIDED no
+axis of `array` or `Bc` has length zero, which NO guard of the wrapper or of the native entry point checks (the gap:
+stated as the hypotheses `hs`, `hb`) — the whole main loop of the C10 model dereferences only `res.at_flat(i)`, `i < N`
+and `input.at_flat(i + delta)` inside the buffer and ends through `i == N`. -/
+theorem C11_hitmiss_safe_partial (env : Env)
+    (hi : (env "input").kind = 1) (hB : (env "Bc").kind = 1)
+    (hw : passes Generated.guards_morph_hitmiss env = true)
+    (hn : npasses Generated.nativeGuards_morph_hitmiss env = true)
+    (wfi : (env "input").wf) (wfb : (env "Bc").wf)
+    (la : (env "array").shape = (env "input").shape)
+    (hs : ∀ d ∈ (env "array").shape, 0 < d) (hb : ∀ d ∈ (env "Bc").shape, 0 < d) :
+    (env "res_a").shape = (env "array").shape ∧ (env "res_a").isCArray = true ∧
+    (∀ a ∈ (hmRun (env "array").shape (env "Bc").shape true).1, 0 ≤ a.i ∧ a.i < a.size) ∧
+    (hmRun (env "array").shape (env "Bc").shape true).2 = true := by
+  obtain ⟨h1, h2⟩ := (C11_hitmiss_guards_imply_pre env).1 hi hB hw
+  obtain ⟨-, h3, h4⟩ := (C11_hitmiss_guards_imply_pre env).2 hn
+  unfold Desc.wf at wfi wfb
+  have hne : (env "array").shape ≠ [] := by
+    intro e; rw [la] at e; rw [e] at wfi; simp at wfi; omega
+  have hlen : (env "Bc").shape.length = (env "array").shape.length := by rw [la]; omega
+  have := C10_hitmiss_in_bounds (env "array").shape (env "Bc").shape hne hlen hs hb
+  exact ⟨h3, h4, this.1, this.2⟩
+
+/-- **C11+C10 (center_of_mass).** If the guards of the native `py_center_of_mass` pass and labels are given, then for
+every label in `[0, max_label]` (the kernel rejects negative labels and computes `max_label` itself) every access of the
+C10 model — `labels[i]` for `i < img.size` in a labels buffer of `labels.size` elements, `totals[label]`,
+`centers[label·ndim + j]` — is in bounds. -/
+theorem C11_center_of_mass_safe (env : Env) (nd maxlabel label : Int)
+    (hn : npasses Generated.nativeGuards_center_of_mass_center_of_mass env = true)
+    (hl : (env "labels_obj").kind ≠ 0) (h0 : 0 ≤ label) (h1 : label ≤ maxlabel) :
+    ∀ a ∈ comAccesses nd maxlabel label (env "array").size (env "labels_obj").size, 0 ≤ a.i ∧ a.i < a.size := by
+  obtain ⟨-, hp⟩ := C11_center_of_mass_guards_imply_pre env hn
+  obtain ⟨-, -, -, hsz⟩ := hp hl
+  exact C10_center_of_mass_in_bounds nd maxlabel label _ _ h0 h1 hsz
+
+/-- **C11+C10 (convolve1d fast path).** Whenever `convolve.convolve1d` reaches the native `_convolve.convolve1d` (the
+extracted branch test holds on the locals), every column index of the C10 model of the kernel — for the row length
+`N1 = f.shape[axis]` and `Nf = len(weights)` weights, any border mode — is in `[0, N1)` and the first loop leaves
+through its test. -/
+theorem C11_convolve1d_safe (env : Env) (m : Mode)
+    (h : passes Generated.reach_convolve_convolve1d env = true) :
+    (∀ a ∈ conv1dAccesses m ((env "f").shape.getD (env "axis").ival.toNat 0) ((env "weights").shape.getD 0 0),
+        0 ≤ a.i ∧ a.i < a.size) ∧
+    conv1dDone ((env "f").shape.getD (env "axis").ival.toNat 0) ((env "weights").shape.getD 0 0) = true :=
+  C10_convolve1d_python_guard m _ _ (by omega) (C11_convolve1d_reach_implies_pre env h)
+
+/-- **C11+C10 (bbox).** If the guard of `labeled.bbox` passes on an ndarray `f` whose descriptor flag "some element is
+negative" means what it says for the label at hand (`hflag`), then for every label up to the maximum the wrapper
+allocates for, every `extrema[label·2·ndim + …]` of the C10 model is in range. -/
+theorem C11_bbox_safe (env : Env) (nd maxlabel label : Int) (hf : (env "f").kind = 1)
+    (h : passes Generated.guards_labeled_bbox env = true)
+    (hflag : (env "f").hasNeg = false → 0 ≤ label) (hmax : label ≤ maxlabel) :
+    ∀ a ∈ bboxAccesses nd maxlabel label, 0 ≤ a.i ∧ a.i < a.size :=
+  (C10_bbox_labeled_in_bounds nd maxlabel label).1 (hflag (C11_bbox_guards_imply_pre env hf h)) hmax
+
+/-- **C11+C10 (cooccurence).** With a caller-supplied 2-D `output` that passes the guards of `texture.cooccurence`,
+`++res.at(v, v2)` is inside the output for all pixel values up to the maximum of `f` (`(env "f").ival`). -/
+theorem C11_cooccurence_safe (env : Env) (v v2 : Int) (hf : (env "f").kind = 1) (ho : (env "output").kind = 1)
+    (h2 : (env "output").shape.length = 2)
+    (h : passes Generated.guards_features_texture_cooccurence env = true)
+    (hv : v ≤ (env "f").ival) (hv2 : v2 ≤ (env "f").ival) :
+    ∀ a ∈ coocAccesses ((env "output").shape.getD 0 0) ((env "output").shape.getD 1 0) v v2, 0 ≤ a.i ∧ a.i < a.size := by
+  obtain ⟨h0, h1⟩ := C11_cooccurence_guards_imply_pre env hf ho h2 h
+  exact C10_cooccurence_in_bounds _ _ (env "f").ival v v2 hv hv2 h0 h1
+
+/-- **C11+C10 (dt).** If no guard of the native `py_dt` takes its exit (including the early return for an empty array),
+the array is `n0 × n1` with `n0, n1 ≥ 1`, and along either axis (line length `n ∈ {n0, n1}`) every access of the C10
+model of `dist_transform` is in range, under the two facts about the float comparisons that C10 states (no NaN). -/
+theorem C11_dt_safe (env : Env) (cmp lt2 : Nat → Nat → Bool)
+    (hn : npasses Generated.nativeGuards_distance_dt env = true) (wf : (env "f").wf)
+    (hcmp : ∀ q, cmp q 0 = true) :
+    ∃ n0 n1 : Nat, (env "f").shape = [n0, n1] ∧ 0 < n0 ∧ 0 < n1 ∧
+      ∀ n, (n = n0 ∨ n = n1) → (∀ q, lt2 q (dtKmax cmp n) = false) →
+        ∀ a ∈ dtAccesses cmp lt2 n, 0 ≤ a.i ∧ a.i < a.size := by
+  obtain ⟨-, h2, h3⟩ := (C11_dt_guards_imply_pre env).1 hn
+  obtain ⟨n0, n1, e⟩ := shape_of_len_two (env "f").shape (by rw [← wf]; exact h2)
+  have hp := all_pos_of_shapeSize_ne_zero _ h3
+  rw [e] at hp
+  have p0 : 0 < n0 := hp n0 (by simp)
+  have p1 : 0 < n1 := hp n1 (by simp)
+  refine ⟨n0, n1, e, p0, p1, ?_⟩
+  intro n hnn hlt
+  have hpos : 0 < n := by rcases hnn with rfl | rfl <;> assumption
+  exact (C10_dist_transform_in_bounds cmp lt2 n hpos hcmp hlt).1
+
+/-! ### T3 — what a guard does when its test holds -/
+
+/-- **C11+C10 (shift / zoom → zoom_shift).** Let the guards of the native `py_zoom_shift` pass on an `array` of at least
+one element per axis (well-formed descriptor) and a 1-D `shifts` array. Then `array` is an aligned C array — its element
+strides are the C strides of its shape — and `shifts` has exactly one entry per axis, so the kernel forms one
+coordinate per axis (`coord`, after rounding/flooring; any integers: the wrapper's guard only has to keep them finite);
+for every border mode and spline order, whenever no axis is flagged, every index `idxs[fi]` the kernel dereferences
+(`array.data()[idxs[fi]]`, model `zsAccesses`) is in `[0, size)`. Composition of `C11_zoom_shift_guards_imply_pre` with
+`C10_zoom_shift_in_bounds`. -/
+theorem C11_zoom_shift_safe (env : Env) (m : Mode) (order : Nat) (coord starts : List Int)
+    (hn : npasses Generated.nativeGuards_interpolate_zoom_shift env = true)
+    (hsk : (env "shifts").kind = 1) (hs1 : 1 ≤ (env "shifts").shape.length)
+    (hnd : (env "array").ndim = (env "array").shape.length)
+    (hpos : ∀ d ∈ (env "array").shape, 0 < d)
+    (hc : coord.length = (env "shifts").shape.getD 0 0)
+    (hst : C10.zsStarts m order (env "array").shape coord = some starts) :
+    (env "array").isCArray = true ∧
+    ∀ idx ∈ C10.zsAccesses (env "array").shape (C10.cStrides (env "array").shape) order starts,
+      0 ≤ idx ∧ idx < (shapeSize (env "array").shape : Int) := by
+  obtain ⟨_, hca, _, hsh, _⟩ := (C11_zoom_shift_guards_imply_pre env).2 hn
+  have hlen : coord.length = (env "array").shape.length := by
+    rw [hc, (hsh hsk).2 hs1, hnd]
+  have hsl : starts.length = (env "array").shape.length :=
+    C10.zsStarts_length m order (env "array").shape coord starts hlen hst
+  exact ⟨hca, (C10_zoom_shift_in_bounds (env "array").shape order starts hpos hsl).2.1⟩
+
+/-- **C11-T3 (rejects are exceptions).** Over the whole generated table of exit actions (every guard atom of the 50
+wrappers and of the 52 native entry points; the table is aligned with the guard lists — its second component is the
+length of the list): every wrapper guard `raise`s; every native guard either sets a Python error and returns NULL
+(`PyErr_SetString`/`PyErr_Format`/`PyErr_NoMemory`/`throw PythonException`, or `!PyArg_ParseTuple`, or a failed callee
+that has set the error itself: numpy allocation, `dcoeffs`, `check_pyramid_parameters`), or is an early successful
+return (`py_dt` on an empty array, `py_majority_filter` with a window larger than the image) — EXCEPT exactly the two
+type/layout tests of `_convex.convexhull` (`!PyArray_ISCARRAY(array)`, `!PyArray_EquivTypenums(PyArray_TYPE(array),
+NPY_BOOL)`), which `return 0` with no error set: CPython turns that into `SystemError: NULL result without error`
+(still an exception, never a crash; reachable only by calling `_convex.convexhull` directly, the wrapper converts
+with `np.require(…, 'CAW')`). -/
+theorem C11_rejects_are_exceptions :
+    (Generated.guardActionTable.all fun e => e.2.1 == e.2.2.length) = true ∧
+    ((Generated.guardActionTable.filter fun e => e.1 != "n:_convex.convexhull").all fun e =>
+        e.2.2.all fun a => actionIsException a || a == 5 || actionIsEarlyReturn a) = true ∧
+    (Generated.guardActionTable.filter fun e => e.2.2.any (· == 3)).map (·.2.2) = [[2, 3, 3]] ∧
+    (Generated.guardActionTable.filter fun e => e.2.2.any actionIsEarlyReturn).map (·.2.2) =
+      [[2, 1, 1, 1, 4], [2, 1, 1, 1, 1, 1, 1, 1, 4, 4]] ∧
+    ((Generated.guardActionTable.filter fun e => (e.1.toList.take 2 == "w:".toList)).all fun e => e.2.2.all (· == 0)) = true := by
+  decide
+
+/-! non-vacuity (round 2): descriptors that pass / are rejected by the extracted native guards -/
+example :
+    npasses Generated.nativeGuards_convolve_find2d (fun n =>
+      if n = "array" then { kind := 1, ndim := 2, shape := [3, 4], tnum := 2, flags := 7 } else
+      if n = "target" then { kind := 1, ndim := 2, shape := [2, 2], tnum := 2, flags := 7 } else
+      if n = "output" then { kind := 1, ndim := 2, shape := [3, 4], tnum := 0, flags := 7 } else {}) = true ∧
+    nfirstReject Generated.nativeGuards_convolve_find2d (fun n =>
+      if n = "array" then { kind := 1, ndim := 2, shape := [3, 4], tnum := 2, flags := 7 } else
+      if n = "target" then { kind := 1, ndim := 1, shape := [2], tnum := 2, flags := 7 } else
+      if n = "output" then { kind := 1, ndim := 2, shape := [3, 4], tnum := 0, flags := 7 } else {}) = some 3 := by
+  decide
+/-- labels of another shape are rejected by atom 5 (the guard added by the repair of center_of_mass); None labels pass -/
+example :
+    nfirstReject Generated.nativeGuards_center_of_mass_center_of_mass (fun n =>
+      if n = "array" then { kind := 1, ndim := 2, shape := [3, 4], tnum := 12, flags := 7 } else
+      if n = "labels_obj" then { kind := 1, ndim := 2, shape := [3, 3], tnum := 5, flags := 7 } else {}) = some 5 ∧
+    npasses Generated.nativeGuards_center_of_mass_center_of_mass (fun n =>
+      if n = "array" then { kind := 1, ndim := 2, shape := [3, 4], tnum := 12, flags := 7 } else {}) = true := by
+  decide
+/-- an empty 2-D array takes the early return of `py_dt` (atom 4, action 4); hitmiss with `Bc` of another rank is
+    rejected by the wrapper; a structuring element with a zero-length axis by `get_structuring_elem` -/
+example :
+    nfirstReject Generated.nativeGuards_distance_dt (fun n =>
+      if n = "f" then { kind := 1, ndim := 2, shape := [0, 3], tnum := 12, flags := 7 } else {}) = some 4 ∧
+    firstReject Generated.guards_morph_hitmiss (fun n =>
+      if n = "input" then { kind := 1, ndim := 2, shape := [4, 4] } else
+      if n = "Bc" then { kind := 1, ndim := 1, shape := [3] } else {}) = some 0 ∧
+    firstReject Generated.guards_morph_get_structuring_elem (fun n =>
+      if n = "A" then { kind := 1, ndim := 2, shape := [4, 4] } else
+      if n = "Bc" then { kind := 1, ndim := 2, shape := [0, 3] } else {}) = some 1 := by
+  decide
+example : Generated.guardActionTable.length = 102 ∧ Generated.nativeGuardTable.length = 52 := by decide
